@@ -122,7 +122,7 @@ def gen_plan(rng, tier, index=0):
             steps.append({"op": r.choice(["hold", "check_hold"]), "s": s})
         else:
             k = r.weighted([("np_seed", 3), ("np_draw", 2), ("py_seed", 1), ("clock", 1), ("printopts", 2), ("gc", 0.5),
-                            ("np_default_rng", 1), ("other_screen", 2), ("numba_threads", 1)])
+                            ("np_default_rng", 1), ("other_screen", 2), ("numba_threads", 1), ("fork", 1)])
             if k == "other_screen":
                 steps.append({"noise": {"k": "other_screen", "like": s, "rows": r.randint(0, 3)}})
             elif k == "printopts":
@@ -135,8 +135,9 @@ def gen_plan(rng, tier, index=0):
                 steps.append({"noise": {"k": k, "v": r.randint(1, 4)}})
             else:
                 steps.append({"noise": {"k": k, "v": r.choice([0, 1, 42, r.randrange(2 ** 32)]), "n": r.randint(1, 8)}})
+    from sim.worlds import c03
     return {"mode": "history", "ambient": rng.randrange(2 ** 31), "entropy": rng.randrange(2 ** 62), "numba_threads": rng.randint(1, 4),
-            "screens": scr, "steps": steps}
+            "pool": {"mode": "inproc", "sched": c03.gen_sched(rng.sub("pool"))}, "screens": scr, "steps": steps}
 
 
 def sample_view(plan):
@@ -234,7 +235,7 @@ def execute_extreme(plan, keep_log=False):
     return res
 
 
-def execute(plan, keep_log=False):
+def _execute(plan, keep_log=False):
     if plan.get("mode") == "stationary":
         return execute_stationary(plan, keep_log)
     if plan.get("mode") == "extreme":
@@ -676,3 +677,17 @@ def simplify(plan):
             c = copy.deepcopy(plan)
             c["screens"][i]["seed"] = 1
             yield c
+
+
+def execute(plan, keep_log=False):
+    """every pool or executor the library may create while this plan runs is a simulated one (thread pools under the baton
+    scheduler), so that concurrency introduced into these code paths is decided by the plan and replays"""
+    from sim import simpool
+    kern = simpool.Kernel(None, None)
+    kern.__enter__()
+    try:
+        pool = plan.get("pool") or {}
+        kern.configure(pool.get("sched"), pool.get("mode", "inproc"))
+        return _execute(plan, keep_log)
+    finally:
+        kern.__exit__(None, None, None)
